@@ -276,4 +276,52 @@ def s4(I):
     I.check('owner_unchanged', p.get('receiver') == 'alice' and p.get('open') is True)
     I.check('contract_holds_the_lp', smt.Eq(b.get(FM, LP1), pre.get(FM, LP1) + add))
 
+
+def _replay_s6(m):
+    ch = m['_choices']
+    who = ['alice', 'bob', 'pool_manager'][ch['sender']]
+    d = _c08_state(m, with_weights=True)
+    d['txs'] = [(who, _pos_msg('withdraw', identifier='u-a', emergency_unlock=True), [])]
+    return d
+
+
+@obligation('C08', 'S6.emergency_withdraw_sender_roles', entries=['execute', 'withdraw_position'], kind='S',
+            statement='emergency withdrawal is accepted only from the position owner (a stranger and the pool manager are refused); the owner is the only user paid '
+                      'and other positions are untouched (amounts of the penalty split: C09)',
+            bounds='amount [1,2^128/17), times symbolic, sender in {owner, stranger, pool manager}; open or closed position; no farms',
+            covers=['ok', 'rejected'], replay=fm_replay(lambda m: _replay_s6(m)))
+def s6(I):
+    I.set_hint(dict(HINT, total_w=10 ** 7, user_w=10 ** 6))
+    now, ep, b = base_world(I)
+    amt = I.sym('amount', lo=1, hi=U128 // 17)
+    oth = I.sym('other_amount', lo=1, hi=U128 // 17)
+    I.assume(b.get(FM, LP1) >= amt + oth)
+    dur = I.sym('duration', lo=DAY, hi=YEAR)
+    closed = I.fork(I.symbool('is_closed'))
+    exp = I.sym('expiring_at', hi=U64 // NS) if closed else None
+    if closed:
+        I.assume(exp <= now + dur)
+    put_position(I, position('u-a', LP1, amt, dur, 'alice', exp))
+    put_position(I, position('u-b', LP1, oth, dur, 'bob', None))
+    put_weight(I, FM, LP1, ep, I.sym('total_w', hi=U128))
+    put_weight(I, 'alice', LP1, ep, I.sym('user_w', hi=U128))
+    who = ['alice', 'bob', PMA][I.choose(3, 'sender')]
+    ch = Chain(I, CONTRACTS_FM)
+    pre = b.snapshot()
+    others = snapshot_positions(I)
+    st, resp = ch.execute(who, FM, manage_position('Withdraw', identifier='u-a', emergency_unlock=Some(True)), [])
+    I.observe('status', 'ok' if st == 'ok' else 'err')
+    observe_position(I, 'u-a')
+    observe_position(I, 'u-b')
+    observe_balances(I, b, [('alice', LP1), ('bob', LP1), (PMA, LP1)])
+    if st != 'ok':
+        I.cover('rejected', HINT)
+        return
+    I.cover('ok', HINT)
+    I.check('emergency_exit_only_by_the_owner', who == 'alice')
+    I.check('position_deleted', get_position(I, 'u-a') is None)
+    I.check('other_position_untouched', pos_eq(I, get_position(I, 'u-b'), others['u-b']))
+    I.check('nobody_else_paid', smt.And(smt.Eq(b.get('bob', LP1), pre.get('bob', LP1)), smt.Eq(b.get(PMA, LP1), pre.get(PMA, LP1))))
+    I.check('owner_receives_at_most_the_recorded_amount', b.get('alice', LP1) - pre.get('alice', LP1) <= amt)
+
 from . import lockdep   # noqa: E402,F401  (cross-contract locked-deposit obligations registered for this property)
